@@ -68,6 +68,8 @@ type execOutcome struct {
 	Log      []*fake.Received
 	RefRes   *refexec.Result
 	Net      *fake.Net
+	// Again sends the same request to the same gateway once more (plans may be cached)
+	Again func() *gwx.Response
 }
 
 // runExec executes the case on the gateway and on the reference.
@@ -111,6 +113,9 @@ func runExec(c *ExecCase) (*execOutcome, *ev.Failure) {
 		return nil, ev.Failf("startup-error", "NewGateway failed on a mergeable world: %v", err)
 	}
 	resp := gwx.PostOp(gw, gwx.GQLRequest{Query: c.Op.Query, Variables: c.Op.Variables, OperationName: c.Op.OperationName}, 15*time.Second)
+	out.Again = func() *gwx.Response {
+		return gwx.PostOp(gw, gwx.GQLRequest{Query: c.Op.Query, Variables: c.Op.Variables, OperationName: c.Op.OperationName}, 15*time.Second)
+	}
 	out.Raw = resp
 	out.Log = net.Snapshot()
 	if resp.TimedOut {
@@ -151,6 +156,27 @@ func checkC01(c *ExecCase) (*ev.Failure, *execOutcome) {
 	}
 	if cls, msg := refexec.Diff(exp, got, "data"); cls != "" {
 		return ev.Failf("data-mismatch:"+cls, "%s\nexpected %s\nobserved %s", msg, trunc(jsonOf(exp), 1500), trunc(jsonOf(got), 1500)), out
+	}
+	// with the caching planner the plan of the first request answers the second one: same answer
+	if c.Config.Planner == "cached" && out.Again != nil {
+		r2 := out.Again()
+		if r2.TimedOut || r2.Panic != "" {
+			return ev.Failf("hang", "the repeated request was not answered: %s", trunc(r2.Panic, 300)), out
+		}
+		d2, derr := gwx.Decode(r2.Body)
+		if derr != nil {
+			return ev.Failf("envelope", "repeated request: %v", derr), out
+		}
+		if len(d2.Errors) > 0 {
+			return ev.Failf("gateway-errors:second-request", "the same request sent again is answered with errors: %s", trunc(jsonOf(d2.Errors), 600)), out
+		}
+		got2 := refexec.Prune(cloneJSON(map[string]interface{}(d2.Data)))
+		if m, ok := got2.(map[string]interface{}); ok && m == nil {
+			got2 = map[string]interface{}{}
+		}
+		if cls, msg := refexec.Diff(exp, got2, "data"); cls != "" {
+			return ev.Failf("data-mismatch:second-request:"+cls, "the same request sent again: %s\nexpected %s\nobserved %s", msg, trunc(jsonOf(exp), 1500), trunc(jsonOf(got2), 1500)), out
+		}
 	}
 	return nil, out
 }
@@ -359,6 +385,28 @@ func (c *censusT) add(sig, example string) {
 	c.mu.Unlock()
 }
 
+// keep saves the first cases of a signature as replayable case files (census mode reports without stopping,
+// a rare failure would otherwise be gone with the run).
+func (c *censusT) keep(pid, sig string, cs interface{}, msg string) {
+	dir := os.Getenv("VERIF_OUT")
+	c.mu.Lock()
+	n := c.sigs[sig]
+	c.mu.Unlock()
+	if dir == "" || n > 2 {
+		return
+	}
+	name := strings.Map(func(r rune) rune {
+		if r >= 'a' && r <= 'z' || r >= 'A' && r <= 'Z' || r >= '0' && r <= '9' {
+			return r
+		}
+		return '_'
+	}, sig)
+	b, err := json.MarshalIndent(map[string]interface{}{"property": pid, "signature": sig, "message": msg, "case": cs}, "", " ")
+	if err == nil {
+		os.WriteFile(fmt.Sprintf("%s/census-case-%s-%s-%d.json", dir, pid, name, n), b, 0o644)
+	}
+}
+
 func (c *censusT) dump(id string) {
 	c.mu.Lock()
 	defer c.mu.Unlock()
@@ -516,6 +564,7 @@ func TestC01(t *testing.T) {
 		if f != nil {
 			if isCensus() {
 				census.add(f.Signature, c.Op.Query+"  ## "+trunc(f.Message, 300))
+				census.keep("C01", f.Signature, c, f.Message)
 				return
 			}
 			if only := os.Getenv("VERIF_ONLY_SIG"); only != "" && !strings.HasPrefix(f.Signature, only) {
